@@ -457,6 +457,14 @@ def poll_body_rules(F, R):
     R.check(out == ("pending",) and starts == [1, 3] and bases == {"Sym(BUF)"} and not [c for c in pr.calls if c[0] == "block_decode"], "P-body", "partial-fill",
             "with idx=1, a 2-byte read and then Pending: reads target offsets %s of %s, outcome %s, block_decode called: %s "
             "(expected buf[1..] then buf[3..], Pending, no decoding before the buffer is full)" % (starts, sorted(bases), out, bool([c for c in pr.calls if c[0] == "block_decode"])), where=fid)
+    # the progress is recorded in the caller-held state, not in a copy: a later poll (on this or on a re-created future) resumes
+    # at offset 3, with the same buffer, header and total
+    st_ = pr.packet.fields.get("state")
+    body_ = st_.fields.get("0") if isinstance(st_, Adt) and st_.variant == "Body" else None
+    kept = isinstance(body_, Adt) and body_.fields.get("idx") == 3 and body_.fields.get("buf") == Sym("BUF") and body_.fields.get("header") == Sym("HEADER")
+    R.check(kept, "P-body", "partial-fill/progress-recorded",
+            "with idx=1, a 2-byte read and then Pending the caller-held state is %s (expected Body{idx: 3, same buffer and header}: the next poll "
+            "continues after the bytes already stored)" % (repr(st_)[:160],), where=fid)
     # the bytes already received stay as they are: between two reads nothing writes to the part of the buffer below idx
     muts = [c for c in pr.calls if c[0] == "buf-mutated"]
     bad_m = []
